@@ -3,6 +3,7 @@ package worlds
 import (
 	"fmt"
 	"regexp"
+	"strings"
 	"time"
 
 	"go.minekube.com/gate/pkg/edition/java/proto/packet"
@@ -51,8 +52,28 @@ func genUsername(r *Run) string {
 		for i := range b {
 			b[i] = alpha[r.W.Pick(len(alpha))]
 		}
-		if r.W.Pick(6) == 0 {
-			b[r.W.Pick(n)] = " -.$@\x7f"[r.W.Pick(6)]
+		if r.W.Pick(5) == 0 {
+			// any ASCII byte outside the allowed set, with the neighbours of the allowed
+			// ranges ('/' ':' '@' '[' '`' '{') and the bytes between 'Z' and 'a' emphasised
+			bad := "/:@[`{\\]^ -.$\x7f!\"#%&'()*+,;<=>?|}~"
+			b[r.W.Pick(n)] = bad[r.W.Pick(len(bad))]
+		}
+		return string(b)
+	}
+}
+
+// genAnyName: names beyond what the login check admits (the UUID rule holds for every name).
+func genAnyName(r *Run) string {
+	switch r.W.Pick(4) {
+	case 0:
+		return genUsername(r)
+	case 1:
+		return []string{"玩家玩家玩家", "seventeen_chars_x", "seventeen_chars_y", ".BedrockPlayer_123456", "ÄÖÜäöüß", strings.Repeat("x", 40), "a b", ""}[r.W.Pick(8)]
+	default:
+		n := 1 + r.W.Pick(48)
+		b := make([]byte, n)
+		for i := range b {
+			b[i] = byte(0x20 + r.W.Pick(0x5f))
 		}
 		return string(b)
 	}
@@ -74,6 +95,14 @@ func loginStartPayload(p proto.Protocol, name string, id uuid.UUID) []byte {
 }
 
 func runC10(r *Run) {
+	// the UUID rule, for every name (also names the login check would not admit)
+	for i := 0; i < 4; i++ {
+		nm := genAnyName(r)
+		if got, want := uuid.OfflinePlayerUUID(nm), offlineUUID(nm); got != want {
+			r.Fail("offline-uuid-differs-from-vanilla", "uuid-function", "OfflinePlayerUUID(%q) = %s, vanilla's name-based UUID is %s", nm, got, want)
+			return
+		}
+	}
 	w := newClassic(r, []string{"lobby"}, nil)
 	proxyEvents(w)
 	prot := pickProtocol(r)
